@@ -11,7 +11,7 @@ pub struct KademliaRoutingTable { pub buckets: Vec<KBucket>, pub node_id: NodeId
 /// Error values: the text of `anyhow!(..)` messages is dropped by the extraction.
 pub struct VerifError {}
 /// the engine that owns the routing table behind a tokio RwLock (only its critical sections are extracted)
-pub struct DhtCoreEngine {}
+pub struct DhtCoreEngine { pub node_id: NodeId }
 pub type Result<T> = core::result::Result<T, VerifError>;
 
 // ASSUMED: the derived `PartialEq` of NodeId/DhtKey (newtypes over [u8; 32]) is equality of the bytes.
@@ -715,3 +715,90 @@ pub proof fn lemma_fcn_final(t: &KademliaRoutingTable, key: &DhtKey, cs: Seq<(No
     }
 }
 
+
+
+// =================================================================================================
+// DhtCoreEngine::handle_request (C02 "never exceeds the protocol cap", C05 "find-node counts are capped,
+// stored values are at most 512 bytes"): `async`, but every `.await` is the acquisition of a tokio RwLock
+// guard (data store, routing table); await erasure (DESIGN 0.2) makes the guarded objects parameters.
+// ASSUMED: DataStore::{get, put} behave as a map from key to bytes (text pinned; its metadata bookkeeping is
+// not modelled); error message text is dropped; opaque payload types.
+// =================================================================================================
+pub mod verif_reqh_std {
+    use vstd::prelude::*;
+    #[verifier::external_body] pub struct Duration { _p: u64 }
+    #[verifier::external_body] pub struct ConsistencyLevel { _p: u8 }
+    #[verifier::external_body] pub struct NodeCapacity { _p: u8 }
+    #[verifier::external_body] pub struct RoutingInfo { _p: u8 }
+    /// `format!(..)` of an error message: some String (text is not part of any obligation)
+    #[verifier::external_body]
+    pub fn verif_error_text() -> String { unimplemented!() }
+}
+pub use verif_reqh_std::*;
+impl Clone for DhtKey {
+    #[verifier::external_body]
+    fn clone(&self) -> (r: Self) ensures r == *self { unimplemented!() }
+}
+impl Clone for NodeId {
+    #[verifier::external_body]
+    fn clone(&self) -> (r: Self) ensures r == *self { unimplemented!() }
+}
+/// DataStore::{put, get} are VERIFIED in this unit (extracted text) over the real field layout; the metadata map
+/// (access counters, timestamps) is bookkeeping that no contract mentions.
+#[verifier::external_body] pub struct SystemTime { _p: u64 }
+impl SystemTime {
+    #[verifier::external_body]
+    pub fn now() -> SystemTime { unimplemented!() }
+}
+pub struct DataMetadata {
+    pub _size: usize,
+    pub _stored_at: SystemTime,
+    pub access_count: u64,
+    pub last_accessed: SystemTime,
+}
+pub struct DataStore {
+    pub data: std::collections::HashMap<DhtKey, Vec<u8>>,
+    pub metadata: std::collections::HashMap<DhtKey, DataMetadata>,
+}
+impl PartialEq for DhtKey {
+    #[verifier::external_body]
+    fn eq(&self, other: &DhtKey) -> (r: bool) ensures r == (*self == *other) { unimplemented!() }
+}
+impl Eq for DhtKey {}
+impl std::hash::Hash for DhtKey {
+    #[verifier::external_body]
+    fn hash<H: std::hash::Hasher>(&self, state: &mut H) { unimplemented!() }
+}
+pub mod verif_reqh_ax {
+    use vstd::prelude::*;
+    use super::DhtKey;
+    #[verifier::external_body]
+    pub broadcast proof fn axiom_dhtkey_key_model()
+        ensures #[trigger] vstd::std_specs::hash::obeys_key_model::<DhtKey>(),
+    {}
+}
+broadcast use verif_reqh_ax::axiom_dhtkey_key_model;
+impl DataStore {
+    /// key -> stored bytes
+    pub open spec fn view(&self) -> Map<DhtKey, Seq<u8>> {
+        Map::new(self.data@.dom(), |k: DhtKey| self.data@[k]@)
+    }
+    /// no access counter is about to wrap (u64: 2^64 reads of one key)
+    pub open spec fn counters_below_max(&self) -> bool {
+        forall|k: DhtKey| self.metadata@.contains_key(k) ==> (#[trigger] self.metadata@[k]).access_count < u64::MAX
+    }
+}
+/// `map.get_mut(k)` on the metadata map (std)
+#[verifier::external_body]
+pub fn verif_meta_get_mut<'a>(m: &'a mut std::collections::HashMap<DhtKey, DataMetadata>, k: &DhtKey) -> (r: Option<&'a mut DataMetadata>)
+    ensures
+        r.is_some() == old(m)@.contains_key(*k),
+        r matches Some(x) ==> *x == old(m)@[*k],
+{ unimplemented!() }
+/// `opt.cloned()` on Option<&Vec<u8>> (std): a copy of the bytes
+#[verifier::external_body]
+pub fn verif_cloned(o: Option<&Vec<u8>>) -> (r: Option<Vec<u8>>)
+    ensures r.is_some() == o.is_some(), r matches Some(v) ==> v@ == o.unwrap()@,
+{ unimplemented!() }
+pub struct DhtRequestWrapper { pub id: String, pub message: DhtMessage }
+pub struct DhtResponseWrapper { pub id: String, pub response: DhtResponse }
